@@ -158,6 +158,50 @@ func c11Scenarios(tier string) []*Scenario {
 			scs = append(scs, sc)
 		}
 	}
+	// the process is renamed while it runs (scaling 1 -> 2 turns a into a-0, 2 -> 1 back): what it wrote before is
+	// still in its in-memory log under the new name, followed by what it writes afterwards
+	for _, dir := range []string{"up", "down"} {
+		dir := dir
+		init, to, before, after := 0, 2, "a", "a-0"
+		if dir == "down" {
+			init, to, before, after = 2, 1, "a-0", "a"
+		}
+		pc := PC{Name: "a"}
+		if init > 0 {
+			pc.Lines = append(pc.Lines, fmt.Sprintf("replicas: %d", init))
+		}
+		scaled := func(w *World) bool { return len(w.apiRes) > 0 && w.apiRes[0].Done }
+		sc := &Scenario{
+			ID:   "c11-rename-" + dir,
+			YAML: projectYAML([]string{"log_length: 100"}, pc),
+			Procs: map[string]*ProcScript{"a": {Launches: [][]Action{{Out("o0.0\n"), Out("o0.1\n"), Out("o0.2\n"), Exit(0)}},
+				Hold: func(w *World, pc int) bool { return pc >= 2 && !scaled(w) }}},
+			K: 1, TickBudget: 1,
+		}
+		wrote := func(w *World) bool {
+			for _, f := range w.procs {
+				if f.Num == 0 && f.pc >= 2 {
+					return true
+				}
+			}
+			return false
+		}
+		sc.API = [][]APICall{{{Op: "scale", Name: before, N: to, When: wrote}}}
+		sc.Check = func(w *World) []Violation {
+			if w.Outcome != "completed" || !scaled(w) || w.apiRes[0].Err != nil {
+				return nil
+			}
+			log, err := w.Runner.GetProcessLog(after, 1000, 0)
+			if err != nil {
+				return []Violation{viol("C11", "log-error", "GetProcessLog(%s): %v", after, err)}
+			}
+			if strings.Join(log, ",") != "o0.0,o0.1,o0.2" {
+				return []Violation{viol("C11", "lost:renamed", "replica 0 wrote o0.0 o0.1 as %s, was renamed to %s by scaling and wrote o0.2: its in-memory log holds %v", before, after, log)}
+			}
+			return nil
+		}
+		scs = append(scs, sc)
+	}
 	return scs
 }
 
